@@ -50,6 +50,62 @@ __CPROVER_assigns(R_ECHO, TERM_FRAME)
 __CPROVER_ensures(P_BIN1(g_ret, T_MUL, T_H_WW, T_D2C))
 ;
 
+/* linear: U = (k / w) * (x - x0);  F = ((-1 k) / w) * 1;  dU/dk = (1 / w) * (x - x0) */
+#define L_ONE(n) P_LEAF(n, 1.0)
+#define L_MONE(n) P_LEAF(n, -1.0)
+#define T_XMC(n) P_BIN2(n, T_SUB, T_X0, L_C)
+#define T_K_W(n) P_BIN2(n, T_DIV, L_K, L_W)
+double k_linear_restraint_potential(size_t i, double force_k, double width, double center)
+__CPROVER_requires(PARAMS_OK)
+__CPROVER_assigns(R_ECHO, TERM_FRAME)
+__CPROVER_ensures(P_BIN1(g_ret, T_MUL, T_K_W, T_XMC))
+;
+#define T_MK(n) P_BIN3(n, T_MUL, L_MONE, L_K)
+#define T_MK_W(n) P_BIN2(n, T_DIV, T_MK, L_W)
+double k_linear_restraint_force(size_t i, double force_k, double width, double center)
+__CPROVER_requires(PARAMS_OK)
+__CPROVER_assigns(R_ECHO, TERM_FRAME)
+__CPROVER_ensures(P_BIN1(g_ret, T_MUL, T_MK_W, L_ONE))
+;
+#define T_1_W(n) P_BIN2(n, T_DIV, L_ONE, L_W)
+double k_linear_d_restraint_potential_dk(size_t i, double force_k, double width, double center)
+__CPROVER_requires(PARAMS_OK)
+__CPROVER_assigns(R_ECHO, TERM_FRAME)
+__CPROVER_ensures(P_BIN1(g_ret, T_MUL, T_1_W, T_XMC))
+;
+/* colvarbias_restraint::update: the base class is updated first (it zeroes the energy), then the energy is the sum over the variables, in
+   order, of restraint_potential(i) and the force on variable i is restraint_force(i) */
+#define CID_RPOT (CID_USER + 5)
+#define CID_RFORCE (CID_USER + 6)
+extern int g_un[12], g_uo[4], g_nbu, g_bu_tn;
+void k_bias_update(void) __CPROVER_assigns(g_nbu, g_bu_tn) __CPROVER_ensures(g_nbu == __CPROVER_old(g_nbu) + 1 && g_bu_tn == g_tn);
+static int r_op(int n) { return TVALID(n) ? g_top(n) : -1; }
+static int r_a(int n) { return TVALID(n) ? g_ta(n) : -2; }
+static int r_b(int n) { return TVALID(n) ? g_tb(n) : -2; }
+static int r_c(int n) { return TVALID(n) ? g_tc(n) : -2; }
+static _Bool upd_energy_ok(void) { int e = g_un[1], m = r_a(e);
+  return r_op(e) == T_ADD && r_op(r_b(e)) == T_CALL + CID_RPOT && r_a(r_b(e)) == 1 && r_op(m) == T_ADD && r_a(m) == g_un[0] && r_op(r_b(m)) == T_CALL + CID_RPOT && r_a(r_b(m)) == 0; }
+static _Bool upd_force_ok(int k) { int f = g_un[2 + k]; return r_op(f) == T_CALL + CID_RFORCE && r_a(f) == k; }
+int k_restraint_update(void)
+__CPROVER_requires(g_tn == 0 && g_nbu == 0)
+__CPROVER_assigns(R_ECHO, TERM_FRAME, __CPROVER_object_whole(g_un), g_nbu, g_bu_tn)
+__CPROVER_ensures(g_nbu == 1 && upd_energy_ok() && upd_force_ok(0) && upd_force_ok(1))
+/* the base-class update comes before any potential or force is evaluated (only the 3 input leaves exist at that point) */
+__CPROVER_ensures(g_bu_tn == 3)
+;
+/* update_centers(lambda): c_new = interpolate(initial_i, target_i, lambda) on the value's manifold; the increment used for the accumulated
+   work is 1/2 grad dist2(c_new, old centre) and is taken BEFORE the centre is replaced; the new centre is c_new wrapped by its variable */
+static _Bool uc_cnew(int n, int k) { return r_op(n) == T_CALL + CID_INTERPOLATE && r_a(n) == g_un[5 + k] && r_b(n) == g_un[7 + k] && r_c(n) == g_un[4]; }
+static _Bool uc_incr_ok(int k) { int r = g_uo[k], g = r_b(r); return r_op(r) == T_MUL && P_LEAF(r_a(r), 0.5) && r_op(g) == T_CALL + CID_CVV_DIST2_GRAD && uc_cnew(r_a(g), k) && r_b(g) == g_un[9 + k]; }
+static _Bool uc_centre_ok(int k) { int r = g_uo[2 + k]; return r_op(r) == T_CALL + CID_WRAP && r_a(r) == k && uc_cnew(r_b(r), k); }
+int k_update_centers_body(void)
+__CPROVER_requires(g_tn == 0)
+__CPROVER_assigns(R_ECHO, TERM_FRAME, __CPROVER_object_whole(g_un), __CPROVER_object_whole(g_uo), g_errors, g_error_bits)
+__CPROVER_ensures(uc_incr_ok(0) && uc_incr_ok(1) && uc_centre_ok(0) && uc_centre_ok(1))
+/* same interpolated value in increment and centre */
+__CPROVER_ensures(r_a(r_b(g_uo[0])) == r_b(g_uo[2]) && r_a(r_b(g_uo[1])) == r_b(g_uo[3]))
+;
+
 /* walls: signed displacement beyond the applicable wall (0 between the walls).
    non-periodic: the lower wall applies iff present and its gradient < 0, else the upper wall iff present and gradient > 0;
    periodic: only the closer wall (smaller squared distance) is considered.
